@@ -200,7 +200,7 @@ func (c *vCore) Sync() error { return nil }
 // fake EVM node
 
 type vRcAns struct {
-	kind   string // null | nf | err | bad | r
+	kind   string // null | nf | err | bad0 | bad1 | r
 	status uint64
 	bh     ethCommon.Hash
 	bn     *uint64 // nil => receipt without block number (direct layer only)
@@ -330,8 +330,10 @@ func (e *vEth) GetTransactionReceipt(ctx context.Context, h ethCommon.Hash) (int
 		return nil, errors.New("not found")
 	case "err":
 		return nil, errors.New("scripted failure")
-	case "bad":
+	case "bad1": // malformed receipt (required fields missing) that does carry a success status
 		return map[string]interface{}{"status": "0x1", "blockHash": a.bh}, nil
+	case "bad0": // malformed receipt without a status
+		return map[string]interface{}{"blockHash": a.bh}, nil
 	}
 	r := &ethTypes.Receipt{Status: a.status, TxHash: h, BlockHash: a.bh, Logs: a.logs}
 	if a.logs == nil {
